@@ -236,7 +236,13 @@ def run(ck):
     nt, nb, ntf = (6000, 6000, 12) if ck.thorough else (1300, 1300, 3)
     cases += [('seed:' + n, b) for n, b in pool[:(200 if ck.thorough else 60)]]
     cases += mutants(ck, probes['plain'], pool, nt, nb, ntf)
-    ans = fl.run_probe(probes['asan'], [('front', 800, b) for _, b in cases], jobs=14)
+    freqs = [('front', 800, b) for _, b in cases]
+    ans = fl.run_probe(probes['asan'], freqs, jobs=14)
+    # a limit that fired before the parser was even entered (no frame of the repository on the stack) is the machine, not the code
+    ans, retried = fl.confirm_hangs(probes['asan'], freqs, ans,
+                                    lambda r, a: not any(f[1].endswith('.c') and f[1] not in ('front_probe.c',) for f in fl.resolve_stack(probes['asan'], fl.split_answer(a)[0])),
+                                    factor=8)
+    ck.extra['hang_answers_without_repo_frame_retried_ok'] = retried
     dist = {}
     for (tag, b), a in zip(cases, ans):
         dist[tag.split(':')[0]] = dist.get(tag.split(':')[0], 0) + 1
